@@ -1281,6 +1281,27 @@ func checkSignedExtLoads32(c *core.Ctx) {
 			case *ast.CallExpr:
 				if f := core.Callee(info, y); f != nil && modes[f.Name()] != nil && len(y.Args) > 0 {
 					modes[f.Name()][constNameOf(info, y.Args[0])] = true
+					// the mode may come through a local: every mode constant assigned to it counts
+					if id, ok := y.Args[0].(*ast.Ident); ok {
+						if o := info.Uses[id]; o != nil {
+							if _, isVar := o.(*types.Var); isVar {
+								ast.Inspect(fd.Body, func(z ast.Node) bool {
+									as, ok := z.(*ast.AssignStmt)
+									if !ok {
+										return true
+									}
+									for i, l := range as.Lhs {
+										if lid, ok := l.(*ast.Ident); ok && i < len(as.Rhs) && (info.Defs[lid] == o || info.Uses[lid] == o) {
+											if k := constNameOf(info, as.Rhs[i]); k != "" {
+												modes[f.Name()][k] = true
+											}
+										}
+									}
+									return true
+								})
+							}
+						}
+					}
 				}
 			}
 			return true
